@@ -115,15 +115,15 @@ prop("C07", level="proof", bounded=True,
           "addressing the last element yielded. iterRangeShape is proved (any step >= 1) to visit exactly range(start, end, step), each coordinate with the "
           "stored payload object or a fresh default box, leaving the tree untouched; iterRangeShapeRef is proved (step 1) to insert exactly the visited absent "
           "coordinates, deliver the stored payload objects and disturb no other element; the populate generator that drives output traversal is proved under C05. "
-          "The wrappers iterOccupancy and iterActiveShape and the format dispatch of Fiber.__iter__ (compressed -> stored non-empty elements ascending; uncompressed "
-          "leaf -> every coordinate of the active range with a box) are proved from those contracts. "
-          "Bounded only: the other wrappers (iterShape/iterActive/...Ref), iterRangeShapeRef with other steps (non-linear visited-set clause), lazy fibers (repeatable, "
+          "The wrappers iterOccupancy, iterActive, iterShape and iterActiveShape and the format dispatch of Fiber.__iter__ (compressed -> stored non-empty elements "
+          "ascending; uncompressed leaf -> every coordinate of the active range with a box) are proved from those contracts. "
+          "Bounded only: the reference-creating wrappers (iterShapeRef/iterActiveShapeRef), iterRangeShapeRef with other steps (non-linear visited-set clause), lazy fibers (repeatable, "
           "materialise to equal eager fibers), projection (incl. reversal and intervals) and pruning: exhaustive over all fibers on 3 (quick) / 4 "
           "(thorough) coordinates, all ranges, steps, active ranges, start positions, both formats, affine transforms +-c+k, intervals.",
      note="Trusted: pyvc, z3/cvc5, tier-B contracts of getDefault/isEmpty (ghost default / emptiness).",
      also=["iterRange", "iterRangeShape", "iterRangeShapeRef", "Fiber._coord2pos", "Fiber.getPayload", "Fiber.getPayloadRef", "Fiber.setSavedPos", "Payload.isEmpty",
-           "iterators.py::__iter__", "iterOccupancy", "iterActiveShape"],
-     trusted_base=["Fiber.getDefault / Fiber.isEmpty ghost abstractions (tier B)", "Fiber.getActive ghost active range (tier T)"])
+           "iterators.py::__iter__", "iterOccupancy", "iterActiveShape", "iterators.py::iterActive", "iterators.py::iterShape"],
+     trusted_base=["Fiber.getDefault / Fiber.isEmpty ghost abstractions (tier B)", "Fiber.getActive / getShape ghost active range and shape (tier T)"])
 
 prop("C05", level="exploration", bounded=True,
      technique="deductive contract on the real lshift generator at a leaf destination rank (pyvc, ~1240 obligations) + bounded executable contract over an enumerated small scope for nesting, interior ranks and tracing",
@@ -169,9 +169,9 @@ prop("C12", level="exploration", bounded=True,
           "and as tensors of different shapes; transitivity over triples; operands snapshotted. Proved core: Fiber.__eq__ is a loop over a | b, whose "
           "iterator is proved to deliver exactly the union with masks naming the sides present (C04), and Payload ==/!= / Payload.isEmpty are proved "
           "(C11); countValues of a leaf-rank fiber is proved to return the defined count of boxes whose value differs from the fiber's default, for both "
-          "`recursive` settings, leaving the fiber untouched. The depth recursion of __eq__/isEmpty/countValues (map/lambda/all, default __ne__) is outside pyvc's subset.",
+          "`recursive` settings, leaving the fiber untouched, and Tensor.countValues of a 1-D tensor returns the same count. The depth recursion of __eq__/isEmpty/countValues (map/lambda/all, default __ne__) is outside pyvc's subset.",
      note="Exploration level. Trusted for the proved core: pyvc, z3/cvc5, the ghost default of getDefault (tier B).",
-     also=["__or__.or_iterator.__iter__", "Payload.__eq__", "Payload.__ne__", "Payload.isEmpty", "Fiber.countValues"],
+     also=["__or__.or_iterator.__iter__", "Payload.__eq__", "Payload.__ne__", "Payload.isEmpty", "Fiber.countValues", "Tensor.countValues"],
      trusted_base=[])
 
 prop("C10", level="exploration", bounded=True,
